@@ -19,6 +19,16 @@
 #define VP_REC_PRINTF 1
 #define VP_REC_ADD    2
 #define VP_REC_ADDBUF 3
+/* int-class variadic arguments: see VP_VA_INT in http_fmt.h (cbmc does not widen char arguments) */
+#ifdef VP_CBMC
+#define VP_RS_INT(ap) VP_VA_INT(ap)
+#define VP_RS_UINT(ap) VP_VA_UINT(ap)
+#define VP_RS_ULONG(ap) VP_VA_UINT(ap)
+#else
+#define VP_RS_INT(ap) ((long long)va_arg(ap, int))
+#define VP_RS_UINT(ap) ((unsigned long long)va_arg(ap, unsigned))
+#define VP_RS_ULONG(ap) ((unsigned long long)va_arg(ap, unsigned long))
+#endif
 struct vp_rec {
 	int kind;
 	const char *fmt;             /* PRINTF */
@@ -83,9 +93,9 @@ int evbuffer_add_printf(struct evbuffer *b, const char *fmt, ...)
 			if (fmt[i] == '%') { i++; continue; }
 			VP_ASSERT(r->nargs < 4, "http_recsink: more than 4 conversions");
 			if (fmt[i] == 's') { r->argt[r->nargs] = 's'; r->sarg[r->nargs] = va_arg(ap, const char *); }
-			else if (fmt[i] == 'd' && !wide) { r->argt[r->nargs] = 'd'; r->narg[r->nargs] = (unsigned long long)(long long)va_arg(ap, int); }
-			else if ((fmt[i] == 'x' || fmt[i] == 'u' || fmt[i] == 'X') && !wide) { r->argt[r->nargs] = 'u'; r->narg[r->nargs] = va_arg(ap, unsigned); }
-			else if (fmt[i] == 'x' || fmt[i] == 'u' || fmt[i] == 'X' || fmt[i] == 'd') { r->argt[r->nargs] = 'l'; r->narg[r->nargs] = va_arg(ap, unsigned long); }
+			else if (fmt[i] == 'd' && !wide) { r->argt[r->nargs] = 'd'; r->narg[r->nargs] = (unsigned long long)VP_RS_INT(ap); }
+			else if ((fmt[i] == 'x' || fmt[i] == 'u' || fmt[i] == 'X') && !wide) { r->argt[r->nargs] = 'u'; r->narg[r->nargs] = VP_RS_UINT(ap); }
+			else if (fmt[i] == 'x' || fmt[i] == 'u' || fmt[i] == 'X' || fmt[i] == 'd') { r->argt[r->nargs] = 'l'; r->narg[r->nargs] = VP_RS_ULONG(ap); }
 			else VP_ASSERT(0, "http_recsink: conversion not covered");
 			r->nargs++;
 			i++;
